@@ -79,7 +79,7 @@ def strategy_(draw, tier):
             'r2': [draw(st.sampled_from(PRESERVING)), draw(st.integers(0, 50))]}
   recipe = draw(dags.dag(
       max_nodes=10, min_nodes=3, leaf_profile='nan_free', bts=('Config', 'Config', 'Partial'),
-      kinds=['B', 'B', 'B', 'list', 'tuple', 'dict', 'mdict', 'mdict', 'nt', 'ltuple', 'ntuple'],
+      kinds=['B', 'B', 'B', 'list', 'tuple', 'dict', 'mdict', 'mdict', 'nt', 'ltuple', 'ntuple', 'set'],
       p_alias=0.75,
       fns=['things:f2', 'things:h1', 'things:Base', 'things:Other', 'things:LeafCls', 'things:kwdef'],
       root_kinds=['B'], uid=draw(st.booleans())))
@@ -268,7 +268,7 @@ def rewrite(recipe, kind, sel):
       for key, j, ref in _refs_of(nodes[i]):
         if not isinstance(ref, int):
           continue
-        if kind == 'alias_redirect' and _base(r, ref)['k'] in ('B', 'list', 'dict'):
+        if kind == 'alias_redirect' and _base(r, ref)['k'] in ('B', 'list', 'dict', 'set'):
           uses.setdefault(ref, []).append((i, key, j))
         if kind == 'intern_redirect' and nodes[ref]['k'] == 'tuple' and dags._internable_node(nodes, ref):  # pylint: disable=protected-access
           uses.setdefault(ref, []).append((i, key, j))
@@ -291,12 +291,12 @@ def rewrite(recipe, kind, sel):
       return i
     groups = {}
     for i in reach:
-      if _base(r, i)['k'] in ('B', 'list', 'dict'):
+      if _base(r, i)['k'] in ('B', 'list', 'dict', 'set'):
         groups.setdefault(base_idx(i), []).append(i)
     cands = []
     for i in reach:
       for key, j, ref in _refs_of(nodes[i]):
-        if isinstance(ref, int) and _base(r, ref)['k'] in ('B', 'list', 'dict'):
+        if isinstance(ref, int) and _base(r, ref)['k'] in ('B', 'list', 'dict', 'set'):
           others = [t2 for t2 in groups.get(base_idx(ref), []) if t2 != ref and t2 < i]
           for t2 in others:
             cands.append((i, key, j, t2))
